@@ -4,7 +4,7 @@ attributes, cfg_attr that is always on, strum attributes that belong to OTHER de
 DOCS = ["/// A documented variant.", "/// Two-line", "///  indented doc with `code` and {braces}", "/// \"quoted\" text",
         "/** block doc */", "#[doc = \"doc attribute\"]"]
 LINTS = ["#[allow(dead_code)]", "#[allow(unused, clippy::all)]", "#[cfg_attr(all(), allow(unused_variables))]", "#[cfg(all())]",
-         "#[cfg(not(any()))]"]
+         "#[cfg(not(any()))]", "#[deprecated]", "#[deprecated(note = \"use something else\")]"]
 # strum attributes that concern other derives only (EnumMessage, EnumProperty); legal on any variant
 OTHER_STRUM = ['#[strum(message = "a message")]', '#[strum(detailed_message = "details {0} {x}")]', '#[strum(props(key = "value", n = 3))]',
                '#[strum(props(flag = true))]',
@@ -26,6 +26,8 @@ def variant_noise(rng, p=0.3, other_strum=True, existing=""):
                 key = "detailed_message"
             elif "message" in c:
                 key = "strum(message"
+            if "deprecated" in c:
+                key = "#[deprecated"
             if key and (key in existing or any(key in o for o in out)):
                 continue
             out.append(c)
